@@ -425,6 +425,16 @@ func indexByte(s string, c byte) int {
 // TestC19Faults enumerates, for each multi-consumer block under test, every boundary call made inside the per-consumer
 // operation and re-executes the scenario with an error injected at exactly that call.
 func TestC19Faults(t *testing.T) {
+	runFaultEnumeration(t, "c19-faults", []string{"launch", "delete", "rewards", "send"})
+}
+
+// TestC16RewardFaults is the rewards part of the same enumeration, run under C16: whatever fails inside a payout, no
+// tokens are created or lost and nothing is paid that stays credited (violations are filed under C16 as well).
+func TestC16RewardFaults(t *testing.T) {
+	runFaultEnumeration(t, "c16-reward-faults", []string{"rewards"})
+}
+
+func runFaultEnumeration(t *testing.T, name string, scenarios []string) {
 	if os.Getenv("VERIF_DIRECTED") == "" {
 		t.Skip("directed test; run through ./check")
 	}
@@ -436,12 +446,12 @@ func TestC19Faults(t *testing.T) {
 	if tier == "thorough" {
 		variants = 8
 	}
-	agg := NewWorld(t, fmt.Sprintf("c19-faults-%s-%d", tier, seed), Config{Seed: seed, Profile: "faults", Tier: tier})
+	agg := NewWorld(t, fmt.Sprintf("%s-%s-%d", name, tier, seed), Config{Seed: seed, Profile: "faults", Tier: tier})
 	fatal := ""
 	var mu sync.Mutex
 	sem := make(chan struct{}, 14)
 	var wg sync.WaitGroup
-	for _, scenario := range []string{"launch", "delete", "rewards", "send"} {
+	for _, scenario := range scenarios {
 		for variant := 0; variant < variants; variant++ {
 			base, err := runC19Child(bin, outdir, scenario, seed, variant, -1)
 			if err != nil {
@@ -552,8 +562,15 @@ func judgeC19(w *World, base, o *c19Outcome, variant int) {
 	// token conservation across the block under test, whatever failed
 	for what, pre := range o.PreCons {
 		w.Eval("C19")
+		if o.Scenario == "rewards" {
+			w.Eval("C16")
+			w.Event("C16", "conservation-checks-under-injected-payout-faults")
+		}
 		if !conservedC19(what, pre, o.Cons[what]) {
 			w.Violation("C19", fmt.Sprintf("tokens-created-or-lost-under-injected-fault:%s:%s", what, tag), det(map[string]any{"before": pre, "after": o.Cons[what]}))
+			if o.Scenario == "rewards" {
+				w.Violation("C16", fmt.Sprintf("tokens-created-or-lost-when-a-payout-fails:%s:%s", what, site), det(map[string]any{"before": pre, "after": o.Cons[what]}))
+			}
 		}
 	}
 	// which consumer's result differs from the fault-free run? (light-client ids shift when an earlier launch fails:
